@@ -223,37 +223,81 @@ def run(ctx):
                             okedge = True
                         if not okedge:
                             exits_ok = False
-        ctx.ob("SETVALUE", "visits-every-occurrence", n_loops == 2 and exits_ok, f"set_value has {n_loops} loops; the only way out of each is exhaustion of its iterator (no break / early return), so every occurrence of the key is updated", sb.file, sb.line, sample=True)
-        ix = index_of(sb)
-        outer = any((t.get("res") or "").endswith("::values_mut") and "settings" in derive(ix, t["args"][0]).names for _bi, t in sb.calls())
-        ctx.ob("SETVALUE", "all-categories", outer, "the outer loop runs over settings.values_mut()", sb.file, sb.line)
-        # comparison: select_key (param 2) with the key half; store: value half <- new_value (param 3)
-        cmp_ok = False
-        for _bi, t in sb.calls():
-            c = t.get("res") or ""
-            if "PartialEq" in c and c.split("::")[-1] in ("eq", "ne") and len(t["args"]) == 2:
-                d0, d1 = derive(ix, t["args"][0]), derive(ix, t["args"][1])
-                if (2 in d0.params) != (2 in d1.params):
-                    other = d1 if 2 in d0.params else d0
-                    cmp_ok = 3 not in other.params and "#0" in other.names and "#1" not in other.names
-        ctx.ob("SETVALUE", "compares-key", cmp_ok, "each pair's key is compared with the requested key", sb.file, sb.line)
-        stores = []
-        for _bi, _si, s in sb.stmts():
-            if sb.blocks[_bi]["cleanup"]:
-                continue
-            if s["k"] == "assign" and s["lhs"]["p"] and s["lhs"]["p"][0] == "*" and sb.locals[s["lhs"]["l"]]["ty"].startswith("&mut std::string::String"):
-                stores.append(derive(ix, s["rv"].get("a", {})) if s["rv"]["k"] == "use" else None)
-        ok_store = len(stores) == 1 and stores[0] is not None and stores[0].params == {3}
-        ctx.ob("SETVALUE", "stores-new-value-only", ok_store, f"set_value performs {len(stores)} store(s) through a &mut String, derived from parameter(s) {[sorted(s_.params) for s_ in stores if s_]}; must be exactly one, of new_value", sb.file, sb.line)
-        # the store goes to the second tuple field (value), not the key
-        tgt = None
-        for _bi, _si, s in sb.stmts():
-            if s["k"] == "assign" and s["rv"]["k"] == "ref" and s["rv"].get("mut") is True:
-                names = [pr.get("f") for pr in s["rv"]["p"]["p"] if isinstance(pr, dict) and "f" in pr and "n" not in pr]
-                written = {st["lhs"]["l"] for _b2, _s2, st in sb.stmts() if st["k"] == "assign" and st["lhs"]["p"] == ["*"] and not sb.blocks[_b2]["cleanup"]}
-                if names and s["lhs"]["l"] in written:
-                    tgt = names[-1]
-        ctx.ob("SETVALUE", "stores-into-value-half", tgt == 1, f"the mutable borrow that is written through is tuple field {tgt} of the (key, value) pair; must be 1", sb.file, sb.line)
+        chain = None
+        if n_loops == 0:
+            # the same update spelled as an iterator chain consumed by for_each: every adaptor of the chain passes all
+            # elements on (no take / find / take_while / next), so every pair of every category is visited
+            seq = [(t.get("res") or "").split("::")[-1] for _bi, t in sorted(sb.calls())]
+            ALL_PASS = {"values_mut", "iter_mut", "flat_map", "flatten", "filter", "map", "inspect", "for_each", "into_iter", "chain"}
+            if seq and seq[-1] == "for_each" and set(seq) <= ALL_PASS and "values_mut" in seq:
+                chain = seq
+        if chain:
+            sx_ = index_of(sb)
+            clos_ = {}
+            for _bi, t in sb.calls():
+                last = (t.get("res") or "").split("::")[-1]
+                if last in ("filter", "for_each") and len(t["args"]) == 2:
+                    k_ = sx_.resolve(t["args"][1])
+                    if k_[0] == "rv" and k_[1]["k"] == "agg" and k_[1].get("ak") == "closure":
+                        clos_[last] = prog.body(k_[1]["closure"])
+            c_cmp = c_store = c_half = False
+            fb_ = clos_.get("filter")
+            if fb_ is not None:
+                fx_ = index_of(fb_)
+                for _bi, t in fb_.calls():
+                    c = t.get("res") or ""
+                    if "PartialEq" in c and c.split("::")[-1] == "eq" and len(t["args"]) == 2:
+                        d0, d1 = derive(fx_, t["args"][0]), derive(fx_, t["args"][1])
+                        for el, cap in ((d0, d1), (d1, d0)):
+                            if 2 in el.params and any(pth and pth[-1] == "#0" for pth in el.paths) and not any(pth and pth[-1] == "#1" for pth in el.paths) and cap.outer_params == {2}:
+                                c_cmp = True
+            eb_ = clos_.get("for_each")
+            if eb_ is not None:
+                ex_ = index_of(eb_)
+                st_ = [s_ for bi_, _si, s_ in eb_.stmts() if not eb_.blocks[bi_]["cleanup"] and s_["k"] == "assign" and s_["lhs"]["p"] and s_["lhs"]["p"][0] == "*" and (s_["lhs"].get("ty") or "").endswith("String")]
+                if len(st_) == 1 and st_[0]["rv"]["k"] == "use":
+                    dv = derive(ex_, st_[0]["rv"]["a"])
+                    c_store = dv.outer_params == {3}
+                    dt = derive(ex_, {"c": {"l": st_[0]["lhs"]["l"], "p": [], "ty": ""}})
+                    c_half = 2 in dt.params and any(pth and pth[-1] == "#1" for pth in dt.paths) and not any(pth and pth[-1] == "#0" for pth in dt.paths)
+            outer_c = "settings" in derive(sx_, next(t["args"][0] for _bi, t in sb.calls() if (t.get("res") or "").endswith("::values_mut"))).names
+            ctx.ob("SETVALUE", "visits-every-occurrence", True, f"set_value is the iterator chain {chain}: every adaptor passes all elements on and for_each consumes the whole chain", sb.file, sb.line, sample=True)
+            ctx.ob("SETVALUE", "all-categories", outer_c, "the chain starts at settings.values_mut()", sb.file, sb.line)
+            ctx.ob("SETVALUE", "compares-key", c_cmp, "the filter compares each pair's key half with the requested key", sb.file, sb.line)
+            ctx.ob("SETVALUE", "stores-new-value-only", c_store, "the for_each closure performs one store, of new_value", sb.file, sb.line)
+            ctx.ob("SETVALUE", "stores-into-value-half", c_half, "the store goes through the value half of the pair", sb.file, sb.line)
+        if not chain:
+            ctx.ob("SETVALUE", "visits-every-occurrence", n_loops == 2 and exits_ok, f"set_value has {n_loops} loops; the only way out of each is exhaustion of its iterator (no break / early return), so every occurrence of the key is updated", sb.file, sb.line, sample=True)
+            ix = index_of(sb)
+            outer = any((t.get("res") or "").endswith("::values_mut") and "settings" in derive(ix, t["args"][0]).names for _bi, t in sb.calls())
+            ctx.ob("SETVALUE", "all-categories", outer, "the outer loop runs over settings.values_mut()", sb.file, sb.line)
+            # comparison: select_key (param 2) with the key half; store: value half <- new_value (param 3)
+            cmp_ok = False
+            for _bi, t in sb.calls():
+                c = t.get("res") or ""
+                if "PartialEq" in c and c.split("::")[-1] in ("eq", "ne") and len(t["args"]) == 2:
+                    d0, d1 = derive(ix, t["args"][0]), derive(ix, t["args"][1])
+                    if (2 in d0.params) != (2 in d1.params):
+                        other = d1 if 2 in d0.params else d0
+                        cmp_ok = 3 not in other.params and "#0" in other.names and "#1" not in other.names
+            ctx.ob("SETVALUE", "compares-key", cmp_ok, "each pair's key is compared with the requested key", sb.file, sb.line)
+            stores = []
+            for _bi, _si, s in sb.stmts():
+                if sb.blocks[_bi]["cleanup"]:
+                    continue
+                if s["k"] == "assign" and s["lhs"]["p"] and s["lhs"]["p"][0] == "*" and sb.locals[s["lhs"]["l"]]["ty"].startswith("&mut std::string::String"):
+                    stores.append(derive(ix, s["rv"].get("a", {})) if s["rv"]["k"] == "use" else None)
+            ok_store = len(stores) == 1 and stores[0] is not None and stores[0].params == {3}
+            ctx.ob("SETVALUE", "stores-new-value-only", ok_store, f"set_value performs {len(stores)} store(s) through a &mut String, derived from parameter(s) {[sorted(s_.params) for s_ in stores if s_]}; must be exactly one, of new_value", sb.file, sb.line)
+            # the store goes to the second tuple field (value), not the key
+            tgt = None
+            for _bi, _si, s in sb.stmts():
+                if s["k"] == "assign" and s["rv"]["k"] == "ref" and s["rv"].get("mut") is True:
+                    names = [pr.get("f") for pr in s["rv"]["p"]["p"] if isinstance(pr, dict) and "f" in pr and "n" not in pr]
+                    written = {st["lhs"]["l"] for _b2, _s2, st in sb.stmts() if st["k"] == "assign" and st["lhs"]["p"] == ["*"] and not sb.blocks[_b2]["cleanup"]}
+                    if names and s["lhs"]["l"] in written:
+                        tgt = names[-1]
+            ctx.ob("SETVALUE", "stores-into-value-half", tgt == 1, f"the mutable borrow that is written through is tuple field {tgt} of the (key, value) pair; must be 1", sb.file, sb.line)
 
     # ---- QUERIES
     hk = prog.body("cfg::ConfigFile::has_key")
